@@ -100,7 +100,8 @@ def wire_of(k, npub):
 def hostile_program(rnd, p):
     """straight-line field arithmetic whose values are aimed at the classes the file formats must survive:
     negative, >= p, wider than 256 bits, zero coefficients, empty linear combinations, no public values, no constraints"""
-    vals = [-3, -1, 0, 1, p - 1, p, p + 5, 2 * p + 1, -p - 2, (1 << 256) - 1, 1 << 256, (1 << 300) + 12345, -(1 << 270), 7, 123456789]
+    vals = [-3, -1, 0, 1, p - 1, p, p + 5, 2 * p + 1, -p - 2, (1 << 256) - 1, 1 << 256, (1 << 300) + 12345, -(1 << 270), 7, 123456789,
+            255, 256, 257, 65535, 65536, 16, 5, p + 7, 2 * p]
     n = rnd.randint(1, 4)
     inputs = [rnd.choice(vals) for _ in range(n)]
     lines = []
@@ -113,7 +114,8 @@ def hostile_program(rnd, p):
         k = rnd.choice([0, 1, -1, 2, p, p + 1, -p, 1 << 260, 3])
         st = rnd.choice(["{a} * {b}", "{a} + {b}", "{a} - {b}", "{a} * %d" % k, "{a} + %d" % k, "{a} - {a}", "{a} * {a} - {b}",
                          "({a} - {a}) * {b}", "{a} * 0 + {b}", "{a} + LinComb.ZERO", "{a} - LinComb.ZERO", "LinComb.ZERO + {a}", "LinComb.ZERO - {a}",
-                         "{a} * {b} + LinComb.ZERO * 5", "({a} + {b}) + ({a} - {a})", "{a} + ({a} * 2 + {b})", "({a} * 2 + {b}) + {a}"]).format(a=a, b=b)
+                         "{a} * {b} + LinComb.ZERO * 5", "({a} + {b}) + ({a} - {a})", "{a} + ({a} * 2 + {b})", "({a} * 2 + {b}) + {a}", "ConstVal(%d) * {a}" % k, "{a} * ConstVal(12)",
+                         "(ConstVal(%d) + 0) * ({b} + ConstVal(3))" % k, "{a} * {a}"]).format(a=a, b=b)
         name = "v%d" % j
         lines.append("%s = %s" % (name, st))
         names.append(name)
@@ -121,7 +123,8 @@ def hostile_program(rnd, p):
         a = rnd.choice(names)
         lines.append(rnd.choice(["(%s - %s).assert_zero()" % (a, a), "o%d = %s.val()" % (j, a) if pub else "(%s * 0).assert_zero()" % a,
                                  "LinComb.ZERO.assert_zero()", "z%d = (%s - %s).check_zero()" % (j, a, a),
-                                 "(%s * 1).assert_eq(%s)" % (a, a)]))
+                                 "(%s * 1).assert_eq(%s)" % (a, a), "z%d = (%s - %s).check_zero()" % (j, a, rnd.choice(names)),
+                                 "z%d = (%s == %s)" % (j, a, rnd.choice(names)), "(%s + 1 - %s).assert_nonzero()" % (a, a)]))
     return "\n".join(lines) + "\n", inputs
 
 
